@@ -1,7 +1,10 @@
 #!/bin/bash
 # setup_cmd: build the whole harness once, offline, from files on disk only.
 set -e
-cd /verif/harness
 export CARGO_NET_OFFLINE=true
 mkdir -p /verif/logs /verif/evidence /verif/replays
-cargo build --release --offline --bins 2>&1 | tail -5
+cd /verif/harness
+cargo build --release --offline --bins 2>&1 | tail -3
+for v in pb plain; do
+  (cd /verif/harness/c16/$v && CARGO_TARGET_DIR=/verif/harness/target/c16-$v cargo build --release --offline 2>&1 | tail -1)
+done
